@@ -36,10 +36,12 @@ Tname == <<110, 97, 109, 101>>
 Ta == <<97>>
 Tb == <<98>>
 Tc == <<99>>
+Td == <<100>>
 To == <<111>>
 IntV(n) == [t |-> "int", v |-> n]
 StrV(s) == [t |-> "str", v |-> s]
 ExVal(ty, k, j) == IF ty = "integer" THEN IntV(10 * k + j)                                         \* 11, 12, ..
+                   ELSE IF ty = "boolean" THEN [t |-> "bool", v |-> TRUE]
                    ELSE IF ty = "text" THEN StrV(<<115, 38, 61, 32, 233, 37, 43, Cp(k), Cp(j)>>)      \* "s&= e'%+11": needs escaping on the wire
                    ELSE StrV(<<115, Cp(k), Cp(j)>>)                                                   \* "s11", ..
 TyOf(ty) == IF ty = "text" THEN "string" ELSE ty
@@ -160,29 +162,46 @@ BadHeaderParam(k) == [name |-> PName(k), loc |-> "header", required |-> FALSE, s
                       ex |-> Outer("example", <<StrV(<<98, 10, 100>>)>>), place |-> "example"]        \* "b\nd"
 
 BadTexts == {<<98, 10, 100>>, <<109, 9731>>}                                                       \* "b\nd" (line feed), "m" + U+2603 (not latin-1)
-(* a string parameter with n examples of which number `pos` cannot be sent *)
-ParamWithBad(k, loc, req, po, pos, bad) ==
-  LET pl == Place(po[1], po[2], Leaf("string"), [j \in 1..po[2] |-> IF j = pos THEN StrV(bad) ELSE ExVal("string", k, j)])
+(* the value alphabet beyond ordinary values: what cannot be sent, and the FALSY value of every JSON type *)
+Falsy == <<IntV(0), [t |-> "bool", v |-> FALSE], StrV(<<>>), [t |-> "arr", v |-> <<>>], [t |-> "obj", k |-> <<>>, v |-> <<>>]>>
+ScalarFalsy == {Falsy[1], Falsy[2], Falsy[3]}
+TypeFor(v) == CASE v.t = "int" -> "integer" [] v.t = "bool" -> "boolean" [] OTHER -> "string"
+(* a parameter with n examples of which number `pos` is the special value sv *)
+ParamWithSpecial(k, loc, req, po, pos, sv) ==
+  LET ty == TypeFor(sv)
+      pl == Place(po[1], po[2], Leaf(ty), [j \in 1..po[2] |-> IF j = pos THEN sv ELSE ExVal(ty, k, j)])
   IN [name |-> PName(k), loc |-> loc, required |-> req, schema |-> pl.schema, ex |-> pl.ex, place |-> po[1]]
+ParamWithBad(k, loc, req, po, pos, bad) == ParamWithSpecial(k, loc, req, po, pos, StrV(bad))
 ObjSchema == [sk |-> "schema", type |-> <<"object">>, required |-> <<Tid>>,
               props |-> [k |-> <<Tid, Tname>>, v |-> <<Leaf("integer"), Leaf("string")>>]]
 ObjEx(b, j) == [t |-> "obj", k |-> <<Tid>>, v |-> <<IntV(100 * b + j)>>]
 PropSchema(sa) == [sk |-> "schema", type |-> <<"object">>, required |-> <<Ta, Tc>>,
                    props |-> [k |-> <<Ta, Tb, Tc>>, v |-> <<sa, Leaf("string"), Leaf("string")>>]]
-BodyPlaces3 == ParamPlaces3 \cup {"property", "property-nested", "items-property", "property-branch", "branch-property"}
+BodyPlaces3a == ParamPlaces3 \cup {"property", "property-nested", "items-property", "property-branch", "branch-property"}
 BodyPlaces2 == {"none", "x-example", "x-examples", "example", "schema-example", "property"}
-BodyCounts(place) == IF place \in {"property", "property-nested", "items-property"} THEN {1, 2, 3}
+BodyCounts(place) == IF place \in {"property", "property-nested", "items-property", "allOf-properties", "property-allOf"} THEN {1, 2, 3}
                      ELSE IF place \in {"property-branch", "branch-property"} THEN {2} ELSE PlaceCounts(place)
 BO(places) == {x \in places \X (0..3) : x[2] \in BodyCounts(x[1])}
-Body(b, mt, req, bo) ==
+BodyPlaces3 == BodyPlaces3a \cup {"allOf-properties", "property-allOf"}
+Req(names) == IF names = <<>> THEN [x \in {} |-> 0] ELSE [required |-> names]
+ObjBranch(names, schemas, required) == [sk |-> "schema", type |-> <<"object">>, props |-> [k |-> names, v |-> schemas]] @@ Req(required)
+(* allOf of object branches: `a` (example) and `c` (required, NO example) in the first branch, `b` (example) in the second, *)
+(* `d` (required, no example) in a third; variant 1: only the first branch has `required`, 2: first and second, 3: all three *)
+AllOfObject(variant) ==
+  [sk |-> "schema",
+   allOf |-> <<ObjBranch(<<Ta, Tc>>, <<Leaf("integer"), Leaf("string")>>, <<Tc>>),
+               ObjBranch(<<Tb>>, <<Leaf("string")>>, IF variant >= 2 THEN <<Tb>> ELSE <<>>)>>
+             \o (IF variant = 3 THEN <<ObjBranch(<<Td>>, <<Leaf("integer")>>, <<Td>>)>> ELSE <<>>)]
+BodyS(b, mt, req, bo, pos, sv) ==        \* pos = 0: no special value; else example number pos is the special value sv
   LET place == bo[1]
       n == bo[2]
-      avals == [j \in 1..n |-> IntV(100 * b + 70 + j)]
+      avals == [j \in 1..n |-> IF j = pos /\ sv.t = "int" THEN sv ELSE IntV(100 * b + 70 + j)]
+      bval == IF pos # 0 /\ sv.t = "str" THEN sv ELSE StrV(<<115, 98, Cp(b)>>)
       pl == CASE place \in {"property", "property-nested", "items-property"} ->
                    LET exa == IF n = 1 THEN "example" ELSE "examples-list" IN
                    (CASE place = "property" ->
                            [schema |-> PropSchema(Leaf("integer")),
-                            ex |-> <<InSchema(<<Prop(Ta)>>, exa, avals), InSchema(<<Prop(Tb)>>, "example", <<StrV(<<115, 98, Cp(b)>>)>>)>>]
+                            ex |-> <<InSchema(<<Prop(Ta)>>, exa, avals), InSchema(<<Prop(Tb)>>, "example", <<bval>>)>>]
                       [] place = "property-nested" ->
                            [schema |-> [sk |-> "schema", type |-> <<"object">>, required |-> <<To>>,
                                         props |-> [k |-> <<To>>, v |-> <<PropSchema(Leaf("integer"))>>]],
@@ -196,11 +215,22 @@ Body(b, mt, req, bo) ==
              [] place = "branch-property" ->
                    [schema |-> Branches("anyOf", 2, PropSchema(Leaf("integer"))),
                     ex |-> [j \in 1..2 |-> InSchema(<<Branch("anyOf", j), Prop(Ta)>>, "example", <<avals[j]>>)]]
-             [] OTHER -> Place(place, n, ObjSchema, [j \in 1..n |-> ObjEx(b, j)])
+             [] place = "allOf-properties" ->      \* n = variant of where `required` is declared
+                   [schema |-> AllOfObject(n),
+                    ex |-> <<InSchema(<<Branch("allOf", 1), Prop(Ta)>>, "example", <<IntV(100 * b + 71)>>),
+                             InSchema(<<Branch("allOf", 2), Prop(Tb)>>, "example", <<bval>>)>>]
+             [] place = "property-allOf" ->
+                   [schema |-> [sk |-> "schema", type |-> <<"object">>, required |-> <<To>>, props |-> [k |-> <<To>>, v |-> <<AllOfObject(n)>>]],
+                    ex |-> <<InSchema(<<Prop(To), Branch("allOf", 1), Prop(Ta)>>, "example", <<IntV(100 * b + 71)>>),
+                             InSchema(<<Prop(To), Branch("allOf", 2), Prop(Tb)>>, "example", <<bval>>)>>]
+             [] OTHER -> Place(place, n, ObjSchema, [j \in 1..n |-> IF j = pos THEN sv ELSE ObjEx(b, j)])
   IN [mt |-> mt, required |-> req, schema |-> pl.schema, ex |-> pl.ex, place |-> place]
+Body(b, mt, req, bo) == BodyS(b, mt, req, bo, 0, IntV(0))
 
 Second(tag, req) == IF tag = "absent" THEN <<>> ELSE <<Body(2, MTTextJson, req, IF tag = "none" THEN <<"none", 0>> ELSE <<"examples", 2>>)>>
-Op(d, ps, bs, slice) == [dialect |-> d, params |-> ps, bodies |-> bs, slice |-> slice]
+(* cfg: what the run is configured with besides the document - "none", or "header": an unrelated request header (-H) *)
+OpC(d, ps, bs, slice, cfg) == [dialect |-> d, params |-> ps, bodies |-> bs, slice |-> slice, cfg |-> cfg]
+Op(d, ps, bs, slice) == OpC(d, ps, bs, slice, "none")
 Few3 == {<<"none", 0>>, <<"examples", 3>>, <<"schema-example", 1>>, <<"oneOf", 2>>}
 VARIABLE op
 (* the family, as the initial states (one disjunct per slice) *)
@@ -208,22 +238,23 @@ InitA == \E a \in PO(ParamPlaces3),
             b \in (IF Thorough THEN PO(ParamPlaces3) ELSE PO(ParamPlaces3) \ {<<"examples", 1>>, <<"schema-examples", 1>>, <<"oneOf", 3>>}) :
            \* two parameters, every placement x every placement
            op = Op("3.0", <<Param(1, "query", FALSE, "integer", a), Param(2, "query", TRUE, "string", b)>>, <<>>, "two-params")
-InitB == \E n1 \in 0..3, n2 \in 0..3, n3 \in 0..3, pl \in (IF Thorough THEN {"examples", "schema-examples"} ELSE {"examples"}) :
+Cfgs == {"none", "header"}
+InitB == \E n1 \in 0..3, n2 \in 0..3, n3 \in 0..3, pl \in (IF Thorough THEN {"examples", "schema-examples"} ELSE {"examples"}), cfg \in Cfgs :
            \* three parameters: the arithmetic of combining pools of different sizes
-           op = Op("3.0", <<Param(1, "query", FALSE, "integer", <<IF n1 = 0 THEN "none" ELSE pl, n1>>),
+           op = OpC("3.0", <<Param(1, "query", FALSE, "integer", <<IF n1 = 0 THEN "none" ELSE pl, n1>>),
                             Param(2, "query", TRUE, "string", <<IF n2 = 0 THEN "none" ELSE "examples", n2>>),
-                            Param(3, "header", TRUE, "string", <<IF n3 = 0 THEN "none" ELSE "schema-examples", n3>>)>>, <<>>, "three-params")
+                            Param(3, "header", TRUE, "string", <<IF n3 = 0 THEN "none" ELSE "schema-examples", n3>>)>>, <<>>, "three-params", cfg)
 InitC == \E loc \in {"query", "header", "path", "cookie"}, req \in BOOLEAN, ty \in {"integer", "string", "text"},
-            po \in {<<"none", 0>>, <<"example", 1>>, <<"examples", 2>>, <<"schema-example", 1>>, <<"anyOf", 2>>} :
+            po \in {<<"none", 0>>, <<"example", 1>>, <<"examples", 2>>, <<"schema-example", 1>>, <<"anyOf", 2>>}, cfg \in Cfgs :
            \* locations and types
-           op = Op("3.0", <<Param(1, loc, req, ty, po)>>, <<>>, "locations")
+           op = OpC("3.0", <<Param(1, loc, req, ty, po)>>, <<>>, "locations", cfg)
 ParamSets == {<<>>, <<Param(1, "query", FALSE, "integer", <<"examples", 3>>)>>, <<Param(1, "query", TRUE, "string", <<"none", 0>>)>>}
              \cup (IF Thorough THEN {<<Param(1, "query", FALSE, "integer", <<"example", 1>>), Param(2, "header", TRUE, "string", <<"none", 0>>)>>} ELSE {})
 InitD == \E bo \in BO(BodyPlaces3), req \in BOOLEAN, b2 \in {"absent", "examples", "none"}, ps \in ParamSets :
            \* bodies: every placement, alone / with a second media type / with parameters
            op = Op("3.0", ps, <<Body(1, MTJson, req, bo)>> \o Second(b2, req), "bodies")
-InitE == \/ \E a \in PO(ParamPlaces2), b \in PO(ParamPlaces2) :           \* OpenAPI 2.0
-              op = Op("2.0", <<Param(1, "query", FALSE, "integer", a), Param(2, "header", TRUE, "string", b)>>, <<>>, "swagger-params")
+InitE == \/ \E a \in PO(ParamPlaces2), b \in PO(ParamPlaces2), cfg \in Cfgs :           \* OpenAPI 2.0
+              op = OpC("2.0", <<Param(1, "query", FALSE, "integer", a), Param(2, "header", TRUE, "string", b)>>, <<>>, "swagger-params", cfg)
          \/ \E bo \in BO(BodyPlaces2), req \in BOOLEAN,
                ps \in {<<>>, <<Param(1, "query", TRUE, "string", <<"x-examples", 2>>)>>, <<Param(1, "query", TRUE, "string", <<"none", 0>>)>>} :
               op = Op("2.0", ps, <<Body(1, MTJson, req, bo)>>, "swagger-body")
@@ -252,7 +283,28 @@ InitJ == \E loc \in {"header", "cookie"}, req \in BOOLEAN, bad \in BadTexts,
                              \o (IF other = "query" THEN <<Param(2, "query", TRUE, "integer", <<"examples", 3>>)>>
                                  ELSE IF other = "header" THEN <<Param(2, "header", FALSE, "string", <<"examples", 2>>)>> ELSE <<>>),
                       IF other = "body" THEN <<Body(1, MTJson, TRUE, <<"examples", 2>>)>> ELSE <<>>, "unsendable-among")
-Init == InitJ \/ InitI \/ InitA \/ InitB \/ InitC \/ InitD \/ InitE \/ InitF \/ InitG \/ InitH
+WholePlaces3 == ParamPlaces3 \ {"none"}
+InitK == \/ \E loc \in {"query", "header", "cookie"}, sv \in ScalarFalsy, po \in PO(WholePlaces3), pos \in 1..3,
+               other \in (IF Thorough THEN {"none", "query"} ELSE {"none"}) :
+              \* the falsy value of every scalar type, at every position, in every parameter-example carrier
+              /\ pos <= po[2]
+              /\ op = Op("3.0", <<ParamWithSpecial(1, loc, FALSE, po, pos, sv)>>
+                                \o (IF other = "query" THEN <<Param(2, "query", TRUE, "integer", <<"examples", 2>>)>> ELSE <<>>), <<>>, "falsy-params")
+         \/ \E loc \in {"query", "header"}, sv \in ScalarFalsy, po \in PO(ParamPlaces2 \ {"none"}), pos \in 1..3 :
+              /\ pos <= po[2]
+              /\ op = Op("2.0", <<ParamWithSpecial(1, loc, TRUE, po, pos, sv)>>, <<>>, "falsy-params")
+InitL == \/ \E i \in DOMAIN Falsy, bo \in BO(WholePlaces3), pos \in 1..3, withQuery \in (IF Thorough THEN BOOLEAN ELSE {FALSE}) :
+              \* falsy request bodies of every JSON type, in every body-example carrier
+              /\ pos <= bo[2]
+              /\ op = Op("3.0", IF withQuery THEN <<Param(1, "query", TRUE, "integer", <<"examples", 2>>)>> ELSE <<>>,
+                         <<BodyS(1, MTJson, TRUE, bo, pos, Falsy[i])>>, "falsy-bodies")
+         \/ \E i \in {1, 3}, bo \in BO({"property", "property-nested", "items-property", "allOf-properties"}), pos \in 1..3 :
+              /\ pos <= bo[2]                                         \* 0 / "" as property examples
+              /\ op = Op("3.0", <<>>, <<BodyS(1, MTJson, TRUE, bo, pos, Falsy[i])>>, "falsy-bodies")
+         \/ \E i \in DOMAIN Falsy, bo \in BO({"x-example", "x-examples", "example", "schema-example"}), pos \in 1..3 :
+              /\ pos <= bo[2]
+              /\ op = Op("2.0", <<>>, <<BodyS(1, MTJson, TRUE, bo, pos, Falsy[i])>>, "falsy-bodies")
+Init == InitK \/ InitL \/ InitJ \/ InitI \/ InitA \/ InitB \/ InitC \/ InitD \/ InitE \/ InitF \/ InitG \/ InitH
 Next == UNCHANGED op
 Spec == Init /\ [][Next]_op
 
